@@ -4,6 +4,7 @@ import itertools
 
 from ..alg import Rat
 from ..loader import shape_error, anchor_error
+from ..report import weighed
 from ..sx import Walker, State, Cond
 from .. import orders
 from ..util import body_nodocstring, names_stored, unparse
@@ -258,12 +259,21 @@ def _proj_segment_cases(ctx):
     # (at projected-coordinate magnitudes the segments are also metre-, decimetre- and centimetre-long: what a 1 Hz GPS track of a pedestrian holds)
     SEGS = [((ax, ay), d_) for (ax, ay) in ((1.0, 2.0), (-3.0, 0.5), (652000.0, 6861000.0)) for d_ in DIRS] + \
            [((900000.0, 6400000.0), (dx * sc, dy * sc)) for sc in (0.25, 0.025, 0.0025) for (dx, dy) in DIRS]
-    for (ax, ay), (dx, dy) in SEGS:
+    # steep but not vertical segments (an x extent below a micrometre / a micro-degree: a north-bound leg in geographic coordinates), near the origin
+    # where the line equation is well conditioned
+    SEGS += [((ax, ay), d_) for (ax, ay) in ((1.0, 2.0), (-3.0, 0.5)) for d_ in ((1e-7, 5.0), (-3e-8, -2.0), (5e-7, 0.5), (-2e-9, 4.0))]
+    # exactly vertical segments with the query beyond an end and off the carrier line: the nearer end point (queries beside a vertical
+    # segment or on its carrier line are the recorded finding C20.F)
+    VERT = [((ax, ay), (0.0, dy)) for (ax, ay) in ((10.0, 0.0), (-3.0, 0.5)) for dy in (5.0, -2.5)]
+    for (ax, ay), (dx, dy) in SEGS + VERT:
         bx, by = ax + dx, ay + dy
         dx, dy = bx - ax, by - ay               # (the segment as stored: end points rounded to the grid of doubles at that magnitude)
         L = math.hypot(dx, dy)
         ux, uy = dx / L, dy / L
+        vertical = dx == 0.0
         for t, off in itertools.product((-0.5, -0.03, 0.0, 0.25, 0.5, 1.0, 1.04, 1.5), (0.0, 1.5, -2.0)):
+            if vertical and (0.0 <= t <= 1.0 or off == 0.0):
+                continue
             qx, qy = ax + t * dx - off * uy, ay + t * dy + off * ux
             tc = max(0.0, min(1.0, t))
             wx, wy = ax + tc * dx, ay + tc * dy
@@ -276,6 +286,8 @@ def _proj_segment_cases(ctx):
             except (ZeroDivisionError, IndexError, TypeError, ValueError, orders.Raised) as ex:
                 got = '%s: %s' % (type(ex).__name__, ex)
             slack = 64 * math.ulp(max(1.0, abs(ax), abs(ay)))       # (coordinates of 7e6 carry 1e-9 of rounding each: 6e-8 of slack there, 1.4e-14 near the origin)
+            if dx != 0.0 and abs(dy) > abs(dx):
+                slack *= abs(dy / dx)                                # (a steep line: y is recovered from x through the slope, which multiplies the rounding)
             ok = isinstance(got, (tuple, list)) and len(got) == 3 and all(isinstance(v, (int, float)) for v in got) and \
                 abs(got[0] - wd) <= 1e-9 * max(1.0, wd) + slack and math.hypot(got[1] - wx, got[2] - wy) <= 1e-9 * max(1.0, L) + slack
             if not ok and len(bad) < 3:
@@ -727,6 +739,9 @@ def rule_M(ctx):
         'a short near segment followed by a long one straddling the query': [(0.2, 5.3), (0, 5.2), (3, 4.9)],
         'single segment': [(2, 1), (9, 4), (0, 0), (12, 6), (5, 9), (5.5, 2.5)],
     }
+    # consecutive fixes with the same easting and another northing (a receiver heading due north, gridded coordinates), and the reverse
+    queries['L-shaped line'] += [(5, -2), (5, 6), (7, 6), (7, 6)]
+    queries['single segment'] += [(5.5, 7), (3, 7)]
     # consecutive queries closer than the tolerance of the position equality, yet distinct (a receiver creeping along): each has its own projection
     lines['gentle slope (queries 0.05 mm apart)'] = [(0, 0), (10, 0.002), (20, 0.001)]
     queries['gentle slope (queries 0.05 mm apart)'] = [(5, 0.0005), (5.00004, 0.00053), (5.00008, 0.00056), (5.00008, 0.00056), (5.00012, 0.00052)]
@@ -747,12 +762,13 @@ def rule_M(ctx):
             lname = lname + ' (the same track object after being rotated and translated in place)'
             qs = [(7.0 - 0.6 * y_ + 0.8 * x_, -3.0 + 0.8 * y_ + 0.6 * x_) for x_, y_ in queries[lname.split(' (the same')[0]]]
         else:
-            ref = refs[lname] = Track([O(P(*p_)) for p_ in pts])
+            ref = refs[lname] = Track([O(P(p_[0], p_[1], 3.0 * k_)) for k_, p_ in enumerate(pts)])
             qs = queries[lname]
-        src = Track([O(P(*q_)) for q_ in qs])
+        # (queries and reference vertices carry altitudes - GPS fixes do: the projection, its distance and its segment are planimetric)
+        src = Track([O(P(q_[0], q_[1], 12.5 + k_)) for k_, q_ in enumerate(qs)])
         try:
             out = run(src, ref)
-            singles = [run(P(*q_), ref) for q_ in qs]
+            singles = [run(P(q_[0], q_[1], 12.5 + k_), ref) for k_, q_ in enumerate(qs)]
         except orders.Unsupported as ex:
             raise shape_error('mapOnTrack not interpretable: %s' % ex, g.loc())
         except (IndexError, KeyError, TypeError, AttributeError, ZeroDivisionError, ValueError, orders.Raised) as ex:
@@ -813,13 +829,76 @@ def rule_M(ctx):
               witness=bad, node=g.node, key='mapOnTrack-geometry')
 
 
+def rule_G(ctx):
+    """C20.G the line helpers by interpretation, whatever way they are written: cartesienne gives a line through both end points;
+    dist_point_droite the distance to that line; projection_droite the foot of the perpendicular (non-vertical lines: the vertical
+    branch is the recorded finding C20.F)"""
+    import math
+    from .. import absint
+    fn = absint.funcs(ctx, GEO, {})
+    fn['sqrt'], fn['hypot'], fn['fabs'] = math.sqrt, math.hypot, math.fabs
+    fc = ctx.prog.func(GEO + '.cartesienne')
+    fd = ctx.prog.func(GEO + '.dist_point_droite')
+    fp = ctx.prog.func(GEO + '.projection_droite')
+    car, dis, prj = (orders.make_func(f_.node, fn) for f_ in (fc, fd, fp))
+    bad = {}
+    n = 0
+    segs = [(ax, ay, ax + dx, ay + dy) for (ax, ay) in ((1.0, 2.0), (-3.0, 0.5), (652000.0, 6861000.0))
+            for (dx, dy) in ((4, 0), (-4, 0), (4, 4), (-4, 4), (3, 1), (-2, 5), (1, -6), (8, 0.5), (0, 3), (0, -2.5))]
+    try:
+        for (x1, y1, x2, y2) in segs:
+            n += 1
+            abc = car([x1, y1, x2, y2])
+            L = math.hypot(x2 - x1, y2 - y1)
+            scale = max(1.0, abs(x1), abs(y1))
+            if not isinstance(abc, (list, tuple)) or len(abc) != 3 or not all(isinstance(v, (int, float)) for v in abc) or math.hypot(abc[0], abc[1]) == 0:
+                bad.setdefault('line', (fc, 'cartesienne returns the coefficients (a, b, c) of a line', {'segment': [x1, y1, x2, y2], 'returned': repr(abc)}))
+                continue
+            a, b, c = abc
+            nrm = math.hypot(a, b)
+            r1, r2 = (a * x1 + b * y1 + c) / nrm, (a * x2 + b * y2 + c) / nrm
+            if abs(r1) > 64 * math.ulp(scale) * 4 or abs(r2) > 64 * math.ulp(scale) * 4:
+                bad.setdefault('line', (fc, 'a*x + b*y + c vanishes at both end points of the segment', {'segment': [x1, y1, x2, y2], 'coefficients': [a, b, c],
+                                                                                                       'signed distance of the end points to the line': [r1, r2]}))
+                continue
+            ux, uy = (x2 - x1) / L, (y2 - y1) / L
+            for t_, off in ((0.3, 2.0), (-0.5, -1.5), (1.7, 0.0), (0.5, 0.0), (0.0, 3.0)):
+                qx, qy = x1 + t_ * (x2 - x1) - off * uy, y1 + t_ * (y2 - y1) + off * ux
+                n += 1
+                d = dis([a, b, c], qx, qy)
+                if not isinstance(d, (int, float)) or abs(d - abs(off)) > 1e-9 * max(1.0, abs(off)) + 256 * math.ulp(scale):
+                    bad.setdefault('distance', (fd, 'dist_point_droite is the distance from the point to the line', {'line through': [x1, y1, x2, y2], 'point': [qx, qy],
+                                                                                                                   'returned': d if isinstance(d, (int, float)) else repr(d), 'distance': abs(off)}))
+                if x1 == x2:
+                    continue            # vertical line: recorded finding (C20.F), reported there
+                n += 1
+                p_ = prj([a, b, c], qx, qy)
+                wx, wy = x1 + t_ * (x2 - x1), y1 + t_ * (y2 - y1)
+                if not isinstance(p_, (list, tuple)) or len(p_) != 2 or not all(isinstance(v, (int, float)) for v in p_) or \
+                        math.hypot(p_[0] - wx, p_[1] - wy) > 1e-9 * max(1.0, L) + 256 * math.ulp(scale):
+                    bad.setdefault('foot', (fp, 'projection_droite is the foot of the perpendicular from the point to the line', {'line through': [x1, y1, x2, y2], 'point': [qx, qy],
+                                                                                                                               'returned': list(p_) if isinstance(p_, (list, tuple)) else repr(p_), 'foot': [wx, wy]}))
+    except orders.Unsupported as ex:
+        raise shape_error('line helpers not interpretable: %s' % ex, fc.loc())
+    except (ZeroDivisionError, IndexError, TypeError, ValueError, KeyError, AttributeError, orders.Raised) as ex:
+        bad.setdefault('fails', (fc, 'the line helpers do not fail on non-degenerate segments', {'exception': '%s: %s' % (type(ex).__name__, str(ex)[:200])}))
+    for k, (f_, desc, wit) in sorted(bad.items()):
+        ctx.violation('C20.G', f_, desc, wit, node=f_.node, key='helpers:' + k)
+    for k, f_, desc in (('line', fc, 'cartesienne gives a line through both end points'), ('distance', fd, 'dist_point_droite is the distance to the line'),
+                        ('foot', fp, 'projection_droite is the foot of the perpendicular (non-vertical lines)')):
+        if k not in bad and 'fails' not in bad:
+            ctx.ok('C20.G', f_, '%s (%d interpreted cases in all)' % (desc, n), node=f_.node)
+
+
+
 RULES = [
-    ('C20.L', rule_L, 'quick'),
-    ('C20.F', rule_F, 'quick'),
-    ('C20.D', rule_D, 'quick'),
+    ('C20.G', rule_G, 'quick'),
     ('C20.E', rule_E, 'quick'),
-    ('C20.P', rule_P, 'quick'),
-    ('C20.W', rule_W, 'quick', 'advisory'),
     ('C20.M', rule_M, 'quick'),
+    ('C20.L', weighed('C20.L', rule_L, ('C20.G', 'C20.E')), 'quick'),
+    ('C20.F', weighed('C20.F', rule_F, ('C20.G', 'C20.E')), 'quick'),
+    ('C20.D', weighed('C20.D', rule_D, ('C20.G', 'C20.E')), 'quick'),
+    ('C20.P', rule_P, 'quick'),
+    ('C20.W', weighed('C20.W', rule_W, ('C20.M',)), 'quick', 'advisory'),
 ]
-MIN_OBLIGATIONS = 15
+MIN_OBLIGATIONS = 8
